@@ -129,6 +129,8 @@ Proof.
   - (* Inc *)
     destruct (nth_error tr ch) as [[amp off]|] eqn:En; [|discriminate].
     destruct (Qeq_bool amp 0) eqn:Ea; inversion Hc; subst; clear Hc.
+    assert (Hlen : forall i l l', cur_rel tr i l l' -> length l' = length l) by (induction 1; cbn; auto).
+    rewrite (Hlen _ _ _ Hcur). destruct (negb (Nat.ltb ch (length (v_cur s)))); [cbn; auto|].
     pose proof (alookup_rel tr (ch, k) _ _ Hregs) as Hl.
     destruct (alookup ck_eqb (ch, k) (v_regs s)) as [old|], (alookup ck_eqb (ch, k) (v_regs s')) as [old'|];
       try contradiction; cbn; auto.
